@@ -20,8 +20,11 @@ def ret_tags(av, fn):
 
 def src_ob(chk, construct, av, fn, want, loc=None):
     got = ret_tags(av, fn)
-    chk.ob("R-SRC", construct, "derives from result #%s of %s only" % (want, fn), got == ["ret:%s#%d" % (fn, want)],
-           derived="from %s" % (got or "none of its results"), loc=loc)
+    wanted = "ret:%s#%d" % (fn, want)
+    # the provenance tags over-approximate (a result selected from the returned tuple by a computed position carries all of them; a call the
+    # engine did not follow carries none): only a definite other source -- the wanted result is not among the sources -- refutes
+    chk.ob("R-SRC", construct, "derives from result #%s of %s only" % (want, fn), got == [wanted],
+           derived="from %s" % (got or "none of its results"), loc=loc, inconclusive=(not got) or (wanted in got and len(got) > 1))
 
 
 def run(chk):
@@ -104,7 +107,8 @@ def run(chk):
                derived=why, loc=e.loc, stmt=e.stmt)
         wh = [x for x in r.events("lib-call") if x.name == "numpy.where" and len(x.args) == 3 and _is_cut(x.args[0])]
         if len(wh) != 1:
-            chk.ob("R-CUT", c + "{substitution}", "one np.where substitution", False, derived="%d found" % len(wh), loc=r.fi.loc())
+            chk.ob("R-CUT", c + "{substitution}", "one np.where substitution", False, derived="%d found" % len(wh), loc=r.fi.loc(),
+                   inconclusive=True)
             continue
         sub, orig = wh[0].args[1], wh[0].args[2]
         expect(chk, "R-CUT", c + "{substitute}", sub, deg={R: 1}, parity={R: "even"}, sign="nonneg",
@@ -112,7 +116,8 @@ def run(chk):
         chk.ob("R-CUT", c + "{substituted-into}", "the substitution replaces the spectral acceleration (3rd result)",
                r.ret.items is not None and wh[0].args[2].tags <= r.ret.items[2].tags and "absmax" in r.ret.items[2].tags
                and "p:motion" in r.ret.items[2].tags and "p:motion" in orig.tags,
-               derived="result tags %s" % sorted(t for t in r.ret.items[2].tags if t.startswith("p:")), loc=wh[0].loc)
+               derived="result tags %s" % sorted(t for t in r.ret.items[2].tags if t.startswith("p:")), loc=wh[0].loc,
+               inconclusive=(r.ret.items is None or r.ret.items[2].indef or orig.indef or orig.kind == K_TOP))
         site = "a@%s:%s:%s" % (wh[0].fn, wh[0].node.lineno, wh[0].node.col_offset)      # the allocation site of the np.where, in whichever function it runs
         for k, nm in ((0, "S_d"), (1, "S_v")):
             chk.ob("R-CUT", c + "{not-substituted}.%s" % nm, "%s is not the result of the substitution" % nm,
@@ -358,8 +363,12 @@ def pair_rule(chk, setup):
              and len(n.args) == 2 and not n.keywords]
     tmin_atom = None
     if len(maxes) != 1:
-        chk.ob("R-PAIR", c + "[target_dt]", "target_dt is the max of two terms", False, derived="%d two-argument max(...) call(s)" % len(maxes),
-               loc=fi.loc(), inconclusive=len(maxes) > 1)
+        # no max in this function (the rule moved to a helper, another spelling): nothing located; a two-argument min(...) in its place is a
+        # located wrong combiner
+        mins = [n for n in ast.walk(fi.node) if isinstance(n, ast.Call) and ast.unparse(n.func) in ("min", "np.minimum", "numpy.minimum")
+                and len(n.args) == 2 and not n.keywords]
+        chk.ob("R-PAIR", c + "[target_dt]", "target_dt is the max of two terms", False, derived="%d two-argument max(...) call(s), %d min(...)" %
+               (len(maxes), len(mins)), loc=fi.loc(mins[0]) if mins else fi.loc(), inconclusive=len(maxes) > 1 or not mins)
     else:
         tgt = maxes[0]
         ps = [norm.poly(a) for a in tgt.args]
@@ -439,7 +448,7 @@ def pair_rule(chk, setup):
                             okt, why = (vz == [1] and vn == [0]), "index %s = %s when the first period is zero, %s otherwise" % (k.id, vz, vn)
                 break
     chk.ob("R-PAIR", c + "[T_min]", "T_min is period [0], or [1] when the first period is 0", okt, derived=why,
-           loc=fi.loc(defs[0]) if defs else fi.loc())
+           loc=fi.loc(defs[0]) if defs else fi.loc(), inconclusive=(tmin_atom is None))
 
 
 
